@@ -78,7 +78,8 @@ func runC17(em *vEmitter, r *vRng) {
 			// estimator values the harness computes itself), not by looking into the policy object; the
 			// threshold is additionally read by reflection when such a field exists
 			probePws := []string{"", "a", "password", "Password1", "alice", "qwertyuiop", "Tr0ub4dor&3", "j8#Kq!2mZ@", "correct horse battery staple",
-				"x7Gq2LmPz9Wt4Rb6", "aaaaaaaaaaaaaaaa", strings.Repeat("ab", 40), "Zq8#vP2$kL9@wX4!nB7^"}
+				"x7Gq2LmPz9Wt4Rb6", "aaaaaaaaaaaaaaaa", strings.Repeat("ab", 40), "Zq8#vP2$kL9@wX4!nB7^",
+				strings.Repeat("a", 70) + "Xk9#mQ2$vL7pR4zT!w", strings.Repeat("alice", 15), "aaaaaaaa" + strings.Repeat("quexazol", 8)}
 			var probes []string
 			thr := "None"
 			if err == nil {
@@ -159,7 +160,11 @@ func runC17(em *vEmitter, r *vRng) {
 		}},
 	}
 	conditions := []string{"score >= 3", "entropy >= 45", "time >= 100000"}
-	cands := []string{"a", "password", "alice2016", "Tr0ub4dor&3", "correct horse battery staple", "x7Gq2LmPz9Wt4Rb6", "newuser1", "whawty123"}
+	cands := []string{"a", "password", "alice2016", "Tr0ub4dor&3", "correct horse battery staple", "x7Gq2LmPz9Wt4Rb6", "newuser1", "whawty123",
+		// longer than any plausible work bound of the estimator: strong only in the tail, weak only as a whole
+		strings.Repeat("a", 70) + "Xk9#mQ2$vL7pR4zT!w", strings.Repeat("a", 130) + "Xk9#mQ2$vL7pR4zT!w",
+		"aaaaaaaa" + strings.Repeat("newuser8", 9), strings.Repeat("whawty", 14), strings.Repeat("password", 9) + "1",
+		strings.Repeat("alice", 15), strings.Repeat("bob", 30)}
 	for _, cond := range conditions {
 		pol := c17Oracle{cond} // the estimator called directly: no state shared with the agent's policy
 		for pi, p := range paths {
